@@ -58,6 +58,9 @@ func allConfigs() []engine.Config {
 	var cc []engine.Config
 	for _, n := range ops.Names() {
 		o := ops.Get(n)
+		if o.Family == "install" {
+			continue // C06/C07/C02
+		}
 		for _, rel := range o.Rels {
 			cc = append(cc, engine.Config{Op: n, Rel: rel})
 		}
